@@ -41,8 +41,11 @@ def make_set(rng, tier):
 def run_case(idx, rng, tier, res):
     g = make_set(rng, tier)
     texts = g.texts((lambda: Layout(rng, 'noisy')) if rng.random() < 0.25 else None)
-    c = compiled.Compiled(g, texts)
-    replay = {'texts': texts}
+    # references must not depend on whether the descriptive texts are generated as well
+    gt = rng.random() < 0.4
+    c = compiled.Compiled(g, texts, load_texts=gt, genTexts=gt)
+    res.cell('genTexts:%s' % gt)
+    replay = {'texts': texts, 'genTexts': gt}
     for b, n, st, err in c.status_problems():
         res.violation('not_compiled', '%s: %s is %s (%s)' % (b, n, st, err), replay=replay, backend=b)
     sig = []
